@@ -215,6 +215,11 @@ def scenarios():
         ev_request('c2', 'blockchain.scripthash.get_history', [sh('A')]),
         ev_state('block(t1)', blocks=extended([('t1',)]), names=()), T, T, T, T,
         ev_request('c2', 'blockchain.scripthash.subscribe', [sh('A')], tag='sub'), T])
+    # a parent confirms, its child stays unconfirmed (has-unconfirmed-inputs flips to false) and
+    # nothing else happens to the child's scripts
+    out['child-stays'] = dict(mempool0=('t1',), script=lambda: [
+        ev_state('mempool+t2', names=('t1', 't2')), T, T,
+        ev_state('block(t1)', blocks=extended([('t1',)]), names=('t2',)), T, T, T, T])
     # a NEW client connects and subscribes around the block that changes the script
     out['late-connect'] = dict(subs={'c1': ('A',), 'c2': ()}, mempool0=('t1',), script=lambda: [
         ev_state('block(t1)', blocks=extended([('t1',)]), names=()), T, T, T, T,
